@@ -7,9 +7,14 @@ from checks import simcommon as sc
 MODULE = "Nice.Props.C14"
 THEOREMS = [f"Nice.Props.C14.{t}" for t in (
     "alphabet_length", "alphabet_ice", "alphabet_nodup", "C14_credentials_wellformed", "C14_credentials_are_rng",
-    "C14_restart_forgets")]
+    "C14_restart_forgets")] + [f"Nice.Props.C14Restart.{t}" for t in (
+    "C14_credentials_reinitialised", "C14_restart_prunes_and_reinitialises", "C14_every_component_restarted_and_announced",
+    "creds_ok", "restart_ok", "restart_body_ok")]
 TRUSTED = [
     "Lean 4 kernel; axioms propext, Classical.choice, Quot.sound only (audited every run)",
+    "Nice/Gen/{InitCredentials,StreamRestart}.lean: obligation skeletons of nice_stream_initialize_credentials and nice_stream_restart "
+    "REGENERATED from agent/stream.c on every run (tools/extract_flow.py): every return has generated both local credentials, cleared both "
+    "remote ones, pruned the checks; every loop iteration restarts the component and announces GATHERING (Nice/Model/Flow.lean)",
     "the credential alphabet (random/random.c) and the default lengths (agent/stream.h) are regenerated from the source on every run",
     "Nice/Model/Creds.lean: hand-written credential generation and the forgetting part of nice_stream_restart; tied by simulation: "
     "every credential a real agent produces is checked against the model's grammar, and after every restart the real agent's remote "
